@@ -796,6 +796,22 @@ fn build_post_form(rng: &mut Rng, cfg_host: &str) -> Req {
         }
         _ => {}
     }
+    // mostly: a policy the form complies with (since 64704af the policy is evaluated), so that the upload path is reached
+    if !rng.chance(1, 8) {
+        let mut conds = vec![format!("[\"starts-with\",\"$bucket\",\"\"]")];
+        for (n, _) in &fields {
+            let l = n.to_ascii_lowercase();
+            if l != "policy" && l != "x-amz-signature" {
+                conds.push(format!("[\"starts-with\",\"${l}\",\"\"]"));
+            }
+        }
+        let text = format!("{{\"expiration\":\"2099-01-01T00:00:00Z\",\"conditions\":[{}]}}", conds.join(","));
+        for f in fields.iter_mut() {
+            if f.0 == "policy" {
+                f.1 = base64(text.as_bytes()).into_bytes();
+            }
+        }
+    }
     let mut body = Vec::new();
     for (n, v) in &fields {
         body.extend_from_slice(format!("--{BOUNDARY}\r\nContent-Disposition: form-data; name=\"{n}\"\r\n\r\n").as_bytes());
@@ -1335,7 +1351,7 @@ fn signed_shape(shape: usize, date: &str, expiry: &str) -> Req {
             r
         }
         3 => {
-            let policy = base64(format!("{{\"expiration\":\"{expiry}\",\"conditions\":[{{\"bucket\":\"bucket\"}},[\"starts-with\",\"$key\",\"\"]]}}").as_bytes());
+            let policy = base64(format!("{{\"expiration\":\"{expiry}\",\"conditions\":[{{\"bucket\":\"bucket\"}},[\"starts-with\",\"$key\",\"\"],[\"starts-with\",\"$x-amz-algorithm\",\"\"],[\"starts-with\",\"$x-amz-credential\",\"\"],[\"starts-with\",\"$x-amz-date\",\"\"]]}}").as_bytes());
             let fields: Vec<(&str, String)> = vec![
                 ("key", "key".to_owned()),
                 ("policy", policy),
